@@ -33,6 +33,7 @@ ASSUMPTIONS = [
     "reg, sing and the delta coefficient loc(0+) of each kernel are taken from the kernel objects (their mutual consistency is C03, their content C04); parton weights are taken from the kernel list (C02, C12, C13)",
     "integration borders follow the documented convention [x(1+1e-10), zmax(1-1e-10)]; x = 1 must return exactly 0 (documented border)",
     "scale-variation keys are C05's business: runs use RenScaleVar=FactScaleVar=False, only (k,0,0,0) keys are compared",
+    "slice N_abs_nlo: the O(a_s) operator of massless runs (ZM-VFNS, n_f = 3..6, EM / NC e-,e+ / CC nu, nubar, e-; also a polarised beam with non-default sin2thetaW, MZ and propagator correction) against a reference that shares nothing with the library - PDG weights (ref_ew) x textbook NLO coefficient functions (ref_nlo) (x) reference basis; the gluon row carries sum_pid w_pid / (2 n_f) times the gluon coefficient normalised with 2 n_f",
     "an options slice (PTO 1, G6) runs with non-canonical projectiles, polarised beam + propagator correction, nuclear / fractional targets, non-default MZ / sin2thetaW / CKM, NCPositivityCharge, non-default masses with Qm != m and kThr = 2",
     "per-order tolerance relative to the sum of absolute pieces (plus the largest entry of the tensor): 1e-12 (LO, pure interpolation), 5e-7 (NLO, analytic kernels), 2e-6 (NNLO) and 2e-5 (N3LO): 6-digit printed constants of the parametrised kernels times large logs near x->1; measured maxima 1e-14, 3.7e-8, 2.5e-7, 3.6e-6",
     "cells that C16 classifies as rejected or known-finding (polarised CC, N3LO massive NaN, g1 PTO3) are excluded by the same rules",
@@ -134,6 +135,17 @@ def slices(tier):
             for k, h, p, sc in itertools.product(["F2", "FL", "F3", "g1"], ["total", "charm"], PROCS, ["ZM-VFNS", "FFNS3", "FFN03"])
             for xl, x in _xl("G6", "3")
         ]
+        # fully independent NLO reference for the massless sector: weights from ref_ew (PDG), coefficient functions from ref_nlo (textbook), convolution by
+        # ref_conv on ref_basis - nothing is taken from the kernel list, so the assignment of coefficient functions AND weights to partons (incl. the gluon) is pinned
+        s["N_abs_nlo"] = [
+            dict(_mk(k, h, p, "ZM-VFNS", 1, "G6", q2, xl, x, "N"), abs=1, projectile=pr)
+            for k, h, (p, pr), q2 in itertools.product(SF_KINDS, ["light", "total"], [("EM", "electron"), ("NC", "electron"), ("NC", "positron"), ("CC", "neutrino"), ("CC", "antineutrino"), ("CC", "electron")], [2.0, 10.0, 30.0, 1e5])
+            for xl, x in _xl("G6", "3")
+        ] + [
+            dict(_mk(k, "total", "NC", "ZM-VFNS", 1, "G6", q2, xl, x, "N"), abs=1, projectile=pr, ew={"pol": -0.6, "prc": 0.1, "s2w": 0.4, "MZ": 50.0})
+            for k, pr, q2 in itertools.product(SF_KINDS, ["electron", "positron", "neutrino"], [10.0, 1e5])
+            for xl, x in _xl("G6", "3")[:2]
+        ]
         s["E_x1"] = [
             _mk(k, "total", p, sc, 1, "G6", 30.0, "one", 1.0, "E")
             for k, p, sc in itertools.product(SF_KINDS, PROCS, ["ZM-VFNS", "FFNS3"])
@@ -165,6 +177,18 @@ def slices(tier):
         s["C_pto23"] = [
             _mk(k, h, p, sc, pto, "G6", q2, xl, x, "C23")
             for k, h, p, sc, pto, q2 in itertools.product(SF_KINDS, ["light", "total", "charm"], PROCS, ["ZM-VFNS", "FFNS3", "FFN03"], [2, 3], [30.0])
+            for xl, x in _xl("G6", "4")
+        ]
+    if tier == "thorough":
+        s["N_abs_nlo"] = [
+            dict(_mk(k, h, p, "ZM-VFNS", 1, g, q2, xl, x, "N"), abs=1, projectile=pr)
+            for g in ("G6", "G9", "L7", "G13", "D5", "U7")
+            for k, h, (p, pr), q2 in itertools.product(SF_KINDS, ["light", "total"], [("EM", "electron"), ("NC", "electron"), ("NC", "positron"), ("NC", "neutrino"), ("CC", "neutrino"), ("CC", "antineutrino"), ("CC", "electron"), ("CC", "positron")], [2.0, 10.0, 30.0, 1e5])
+            for xl, x in (_xl(g, "all") if g == "G6" else _xl(g, "4"))
+        ] + [
+            dict(_mk(k, "total", "NC", "ZM-VFNS", 1, "G6", q2, xl, x, "N"), abs=1, projectile=pr, ew=ew)
+            for ew in ({"pol": -0.6, "prc": 0.1, "s2w": 0.4, "MZ": 50.0}, {"pol": 1.0, "prc": 0.0, "s2w": 0.1, "MZ": 200.0}, {"pol": 0.3, "prc": -0.2, "s2w": 0.23126, "MZ": 91.1876})
+            for k, pr, q2 in itertools.product(SF_KINDS, ["electron", "positron", "neutrino", "antineutrino"], [2.0, 10.0, 30.0, 1e5])
             for xl, x in _xl("G6", "4")
         ]
     return s
@@ -203,7 +227,70 @@ def _poly(basis, x):
     return v
 
 
+_ABS_COEFF = {"F2": ("c2q", "c2g", "F2"), "FL": ("clq", "clg", "F2"), "F3": ("c3q", None, "F3"), "g1": ("c3q", "dcg", "g1"), "g4": ("c2q", None, "g4"), "gL": ("clq", None, "g4")}
+
+
+def _abs_nlo(st):
+    """O(a_s) operator of a massless run against a reference that shares nothing with the library: PDG weights x textbook coefficient functions (x) reference basis."""
+    from ..ref import ref_ew, ref_nlo
+
+    name = cards.obsname(st["kind"], st["heavyness"])
+    cell = {k: st[k] for k in ("process", "scheme", "pto", "grid", "projectile")}
+    cell["theory"] = {"RenScaleVar": False, "FactScaleVar": False}
+    ew = st.get("ew", {})
+    if ew:
+        cell["theory"].update({"SIN2TW": ew["s2w"], "MZ": ew["MZ"]})
+        cell["obscard"] = {"PolarizationDIS": ew["pol"], "PropagatorCorrection": ew["prc"]}
+    out, status = rel.try_run(cell, {name: [cards.kin(st["x"], st["Q2"])]})
+    if status != "ok":
+        return {"violations": [], "nontrivial": False, "outcome": status, "transitions": 1, "info": {"n_" + status.split(":")[0]: 1}}
+    nf = 3 + sum(1 for m in (1.51, 4.92, 172.5) if m * m <= st["Q2"])
+    qn, gn, wkind = _ABS_COEFF[st["kind"]]
+    W = ref_ew.lo_weights(wkind, st["heavyness"], st["process"], st["projectile"], nf, Q2=st["Q2"], ckm=cards.CKM_PDG, pol=ew.get("pol", 0.0), MZ=ew.get("MZ", 91.1876), s2w=ew.get("s2w", 0.23126), prc=ew.get("prc", 0.0))
+    g, d, lg = cards.grid(st["grid"])
+    basis = ref_basis.RefBasis(g, d, lg)
+    n = basis.n
+    x = st["x"]
+    T = yrun.tensors(out[name][0])
+    val, err = T[(1, 0, 0, 0)]
+    pred = np.zeros((14, n))
+    scale = np.zeros((14, n))
+    perr = np.zeros((14, n))
+    trip_q = getattr(ref_nlo, qn)()
+    trip_g = getattr(ref_nlo, gn)(nf) if gn else None
+    wg = sum(W.values()) / 2.0 / nf
+    for j in range(n):
+        sup = basis.support(j)
+        if x >= sup[1] or not (0 < x < 1 - ref_conv.EPS_BORDER):
+            continue
+        vq, eq = ref_conv.convolve(trip_q[0], None, trip_q[1], None, trip_q[2], lambda y, j=j: basis.p(j, y), x, sup, basis.x)
+        for pid, w in W.items():
+            i = yrun.PIDX[pid]
+            pred[i, j] += w * x * vq
+            scale[i, j] += abs(w * x * vq)
+            perr[i, j] += abs(w) * x * eq
+        if trip_g is not None and wg != 0.0:
+            vg, eg = ref_conv.convolve(trip_g[0], None, trip_g[1], None, trip_g[2], lambda y, j=j: basis.p(j, y), x, sup, basis.x)
+            i = yrun.PIDX[21]
+            pred[i, j] += wg * x * vg
+            scale[i, j] += abs(wg * x * vg)
+            perr[i, j] += abs(wg) * x * eg
+    sc = scale + np.abs(val)
+    tol = RTOL[1] * (sc + sc.max()) + 20 * (err + perr) + 1e-300
+    dlt = np.abs(val - pred)
+    worst = float((dlt / (sc + sc.max())).max()) if sc.max() > 0 else 0.0
+    viol = []
+    if np.any(dlt > tol):
+        idx = np.unravel_index(np.argmax(dlt - tol), dlt.shape)
+        fp = {k: st[k] for k in ("kind", "heavyness", "process", "scheme", "pto", "grid", "xlab")}
+        viol.append({"fp": dict(fp, cls="abs-nlo", pid=int(yrun.PIDS[idx[0]])), "fpkey": {"cls": "abs-nlo", "kind": st["kind"], "process": st["process"], "gluon": bool(yrun.PIDS[idx[0]] == 21)},
+                     "msg": f"{name} proc={st['process']}/{st['projectile']} ZM-VFNS n_f={nf} x={x!r} ({st['xlab']}) Q2={st['Q2']}: O(a_s) operator[pid={yrun.PIDS[idx[0]]}, j={idx[1]}] = {val[idx]:.10g}, PDG weight x textbook coefficient function (x) basis = {pred[idx]:.10g} (|delta|={dlt[idx]:.3e}, tol={tol[idx]:.3e})"})
+    return {"violations": viol, "nontrivial": bool(np.any(val != 0)), "outcome": yrun.res_digest(out[name][0]), "transitions": 1, "info": {"maxrel_abs_nlo": worst}}
+
+
 def execute(st):
+    if st.get("abs"):
+        return _abs_nlo(st)
     import yadism.coefficient_functions as cf
 
     yrun.reset_memos()
@@ -335,6 +422,7 @@ LEVEL_TEXT = (
     "(k,0,0,0) key is compared with an executable reference that convolves the kernel list with an independently written Lagrange basis straight from the definition of "
     "the plus prescription (delta coefficient only, integral of the singular part by quadrature); a second oracle contracts the operator with an exactly representable "
     "polynomial and compares with the direct convolution, using no basis at all."
+    " Slice N_abs_nlo checks the O(a_s) operator of massless runs against a reference that shares nothing with the library (PDG weights x textbook NLO coefficient functions (x) reference basis), which also pins the weights assigned to each parton, the gluon included."
 )
 LEVEL_NOTE = (
     "Trusted: SciPy quad, the kernels' reg/sing callables and loc(0+) (C03/C04 decide those), the parton weights of the kernel list (C02/C12/C13), the documented 1e-10 integration borders. "
